@@ -75,3 +75,38 @@ Fixpoint index_of_str (v : string) (l : list string) (i : nat) : option nat :=
 (** non-iota: fromValue(v) = values.indexOf(v) ; toValue(i) = values[i] *)
 Definition from_value (values : list string) (v : string) : option nat := index_of_str v values 0.
 Definition to_value (values : list string) (i : nat) : option string := nth_error values i.
+
+(** * analysis.NewLinker / Linker.GetOutput: the file a named type is emitted in, from the path of its package
+      relative to the source root (what follows "go/src/" in the root directory; nothing when the root is not under a
+      GOPATH, in which case every package is treated like the standard library) *)
+Fixpoint cut_after (sep s : string) : option string :=
+  if String.prefix sep s then Some (drop (String.length sep) s)
+  else match s with EmptyString => None | String _ r => cut_after sep r end.
+
+(** path.Dir on a clean path without trailing slash *)
+Fixpoint last_slash (s : string) (i cur : nat) : option nat :=
+  match s with
+  | EmptyString => None
+  | String c r => match last_slash r (S i) cur with
+                  | Some j => Some j
+                  | None => if Ascii.eqb c "/"%char then Some i else None end
+  end.
+Definition path_dir (s : string) : string :=
+  match last_slash s 0 0 with
+  | None => "."
+  | Some O => "/"
+  | Some i => substring 0 i s
+  end.
+
+Fixpoint replace_slash (s : string) : string :=
+  match s with
+  | EmptyString => EmptyString
+  | String c r => String (if Ascii.eqb c "/"%char then "_"%char else c) (replace_slash r)
+  end.
+
+Definition linker_prefix (root : string) : string :=
+  path_dir (match cut_after "go/src/" root with Some r => r | None => "" end) ++ "/".
+
+Definition dart_out_file (root pkg_path : string) : string :=
+  let prefix := linker_prefix root in
+  replace_slash (if String.prefix prefix pkg_path then drop (String.length prefix) pkg_path else "stdlib/" ++ pkg_path) ++ ".dart".
